@@ -420,6 +420,9 @@ func (r *Runner) assignVal(name string, prev expand.Variable, as *syntax.Assign,
 			prev.Str += s
 		case expand.Indexed:
 			// Appends to the element at index 0, creating it if unset.
+			// Clone first: the storage may be shared with a parent shell.
+			prev.List = slices.Clone(prev.List)
+			prev.Indexes = slices.Clone(prev.Indexes)
 			if len(prev.List) > 0 && (prev.Indexes == nil || prev.Indexes[0] == 0) {
 				prev.List[0] += s
 			} else {
